@@ -106,56 +106,103 @@ def order_free_for(rel, site_src):
     return False
 
 
+ELEMENT_CALLS = {"get", "setdefault", "pop", "popitem", "__getitem__", "copy_reference"}
+
+
 def gen_observer_effects():
+    """Aliases of shared state are followed through locals, loop variables AND calls: `x = self.m(...)` makes x shared when
+    some method named m (of any class of data_types.py) returns an expression rooted in its `self` (fixpoint over the
+    methods), and `x = shared.get(...)` / `.setdefault(...)` / `getattr(self, …)` / `vars(self)` hand out elements of
+    shared containers — so a cache kept in the instance `__dict__` and mutated through the name it was fetched under is
+    an effect, not a local matter."""
     rel = "sharepoint2text/parsing/extractors/data_types.py"
     tree = parse(rel)
-    eff = []
-    for cls in [n for n in tree.body if isinstance(n, ast.ClassDef)]:
-        for fn in [n for n in cls.body if isinstance(n, (ast.FunctionDef, ast.AsyncFunctionDef))]:
-            if fn.name in NON_OBSERVERS:
-                continue
-            # names aliasing shared state: self, loop variables over self.<x>, names assigned from self.<x>
-            shared = {"self"}
-            local_fresh = set()
-            changed = True
+    methods = [(cls, fn) for cls in [n for n in tree.body if isinstance(n, ast.ClassDef)]
+               for fn in [n for n in cls.body if isinstance(n, (ast.FunctionDef, ast.AsyncFunctionDef))]]
+    returns_shared = set()
 
-            def rooted(e):
-                while isinstance(e, (ast.Attribute, ast.Subscript)):
-                    e = e.value
-                if isinstance(e, ast.Call):  # e.g. (matched_unit or units[-1]).tables  / self.get_x().y  -> treat by function root
-                    return rooted(e.func)
-                if isinstance(e, ast.BoolOp):
-                    return any(rooted(v) for v in e.values)
-                return isinstance(e, ast.Name) and e.id in shared
+    def analyse(fn):
+        shared = {"self"}
 
-            while changed:
-                changed = False
-                for n in ast.walk(fn):
-                    new = None
-                    if isinstance(n, (ast.For, ast.comprehension)) and rooted(n.iter):
-                        for t in ast.walk(n.target):
-                            if isinstance(t, ast.Name):
-                                new = t.id
-                                if new not in shared:
-                                    shared.add(new)
-                                    changed = True
-                    elif isinstance(n, ast.Assign) and len(n.targets) == 1 and isinstance(n.targets[0], ast.Name) \
-                            and isinstance(n.value, (ast.Attribute, ast.Subscript, ast.Name)) and rooted(n.value):
-                        if n.targets[0].id not in shared:
-                            shared.add(n.targets[0].id)
-                            changed = True
+        def rooted(e):
+            while isinstance(e, (ast.Attribute, ast.Subscript)):
+                e = e.value
+            if isinstance(e, ast.Call):  # e.g. (matched_unit or units[-1]).tables  / self.get_x().y  -> treat by function root
+                return rooted(e.func)
+            if isinstance(e, ast.BoolOp):
+                return any(rooted(v) for v in e.values)
+            if isinstance(e, ast.IfExp):
+                return rooted(e.body) or rooted(e.orelse)
+            return isinstance(e, ast.Name) and e.id in shared
+
+        def shares(e):
+            """does the VALUE of e alias shared state (for `x = e`)"""
+            if isinstance(e, (ast.Attribute, ast.Subscript, ast.Name)):
+                return rooted(e)
+            if isinstance(e, (ast.BoolOp,)):
+                return any(shares(v) for v in e.values)
+            if isinstance(e, ast.IfExp):
+                return shares(e.body) or shares(e.orelse)
+            if isinstance(e, ast.NamedExpr):
+                return shares(e.value)
+            if isinstance(e, ast.Call):
+                f = e.func
+                if isinstance(f, ast.Attribute) and f.attr in ELEMENT_CALLS and rooted(f.value):
+                    return True
+                if isinstance(f, ast.Attribute) and f.attr in returns_shared and rooted(f.value):
+                    return True
+                if isinstance(f, ast.Name) and f.id in ("getattr", "vars") and e.args and rooted(e.args[0]):
+                    return True
+            return False
+        changed = True
+        while changed:
+            changed = False
             for n in ast.walk(fn):
-                if isinstance(n, (ast.Assign, ast.AugAssign, ast.AnnAssign)):
+                if isinstance(n, (ast.For, ast.comprehension)) and rooted(n.iter):
+                    for t in ast.walk(n.target):
+                        if isinstance(t, ast.Name) and t.id not in shared:
+                            shared.add(t.id)
+                            changed = True
+                elif isinstance(n, (ast.Assign, ast.AnnAssign, ast.NamedExpr)) and getattr(n, "value", None) is not None and shares(n.value):
                     tgts = n.targets if isinstance(n, ast.Assign) else [n.target]
                     for t in tgts:
-                        if isinstance(t, (ast.Attribute, ast.Subscript)) and rooted(t):
-                            eff.append((cls.name, fn.name, "store", ast.unparse(t)[:60]))
-                elif isinstance(n, ast.Call) and isinstance(n.func, ast.Attribute) and n.func.attr in MUTATORS and rooted(n.func.value):
-                    eff.append((cls.name, fn.name, "call", ast.unparse(n.func)[:60]))
-                elif isinstance(n, ast.Delete):
-                    for t in n.targets:
-                        if isinstance(t, (ast.Attribute, ast.Subscript)) and rooted(t):
-                            eff.append((cls.name, fn.name, "del", ast.unparse(t)[:60]))
+                        if isinstance(t, ast.Name) and t.id not in shared:
+                            shared.add(t.id)
+                            changed = True
+        ret = any(isinstance(n, ast.Return) and n.value is not None and shares(n.value) for n in ast.walk(fn))
+        return shared, rooted, ret
+
+    changed = True
+    while changed:
+        changed = False
+        for cls, fn in methods:
+            if fn.name in returns_shared:
+                continue
+            if analyse(fn)[2]:
+                returns_shared.add(fn.name)
+                changed = True
+    eff = []
+    for cls, fn in methods:
+        if fn.name in NON_OBSERVERS:
+            continue
+        shared, rooted, _ = analyse(fn)
+        for n in ast.walk(fn):
+            if isinstance(n, (ast.Assign, ast.AugAssign, ast.AnnAssign)):
+                tgts = n.targets if isinstance(n, ast.Assign) else [n.target]
+                for t in tgts:
+                    if isinstance(t, (ast.Attribute, ast.Subscript)) and rooted(t):
+                        eff.append((cls.name, fn.name, "store", ast.unparse(t)[:60]))
+                    elif isinstance(n, ast.AugAssign) and isinstance(t, ast.Name) and t.id in shared and t.id != "self":
+                        eff.append((cls.name, fn.name, "augassign", ast.unparse(t)[:60]))     # `parts += […]` extends a list in place
+            elif isinstance(n, ast.Call) and isinstance(n.func, ast.Attribute) and n.func.attr in MUTATORS and rooted(n.func.value):
+                eff.append((cls.name, fn.name, "call", ast.unparse(n.func)[:60]))
+            elif isinstance(n, ast.Call) and ast.unparse(n.func) in ("setattr", "delattr", "object.__setattr__", "object.__delattr__") \
+                    and n.args and rooted(n.args[0]):
+                eff.append((cls.name, fn.name, "call", ast.unparse(n.func) + "(" + ast.unparse(n.args[0])[:30] + ")"))
+            elif isinstance(n, ast.Delete):
+                for t in n.targets:
+                    if isinstance(t, (ast.Attribute, ast.Subscript)) and rooted(t):
+                        eff.append((cls.name, fn.name, "del", ast.unparse(t)[:60]))
     return sorted(set(eff))
 
 
